@@ -134,6 +134,8 @@ BINARY = {
     'sw': lambda a, b: a >> b, 'proj': lambda a, b: a @ b, 'add': lambda a, b: a + b,
     'sub': lambda a, b: a - b, 'div': lambda a, b: a / b,
     'mulinv': lambda a, b: a * b.inv(), 'rdiv': lambda a, b: a / b,
+    # square of a wedge: over sympy coefficients its higher-grade parts vanish only after simplification (C09, C13)
+    'wedge_sq': lambda a, b: (a ^ b) * (a ^ b),
 }
 # the method spellings of the same operators (must agree with the infix ones)
 BINARY_METHOD = {
